@@ -5,3 +5,10 @@ pub fn run(_tier: Tier, _seed: u64, _replay: Option<String>) -> i32 {
     eprintln!("MACHINERY: check C10 is not built yet");
     2
 }
+
+/// System level of C11 (real-time ROM load vs fast load); filled in with the C10 machinery.
+pub fn realtime_vs_fast(_ctx: &crate::vcore::Ctx) {}
+
+pub fn replay_realtime(_ctx: &crate::vcore::Ctx, _case: &serde_json::Value) -> i32 {
+    2
+}
